@@ -70,6 +70,7 @@ struct Analysis {
   invalid_defines: Vec<L4>,
   errors: Vec<Value>,
   occurrences: Vec<Occ>,
+  patterns: Vec<Value>,
   panic: Option<String>,
 }
 
@@ -89,6 +90,9 @@ struct Occ {
 struct Walk<'a> {
   heap: &'a Heap,
   out: Vec<Occ>,
+  /// every top-level pattern (let / if-let / match arm) as a term of the Coq type `pat`:
+  /// ["id", name, loc] | ["w"] | ["n", [children]] | ["or", first, [later alternatives]]
+  pats: Vec<Value>,
 }
 
 impl<'a> Walk<'a> {
@@ -133,12 +137,40 @@ impl<'a> Walk<'a> {
     }
   }
 
+  fn pat_term(&self, p: &pattern::MatchingPattern<()>) -> Value {
+    match p {
+      pattern::MatchingPattern::Tuple(t) => {
+        json!(["n", t.elements.iter().map(|e| self.pat_term(&e.pattern)).collect::<Vec<_>>()])
+      }
+      pattern::MatchingPattern::Object { elements, .. } => {
+        json!(["n", elements.iter().map(|e| self.pat_term(&e.pattern)).collect::<Vec<_>>()])
+      }
+      pattern::MatchingPattern::Variant(v) => json!([
+        "n",
+        v.data_variables.iter().flat_map(|t| &t.elements).map(|e| self.pat_term(&e.pattern)).collect::<Vec<_>>()
+      ]),
+      pattern::MatchingPattern::Id(id, ()) => json!(["id", id.name.as_str(self.heap), l4(&id.loc)]),
+      pattern::MatchingPattern::Wildcard { .. } => json!(["w"]),
+      pattern::MatchingPattern::Or { patterns, .. } => json!([
+        "or",
+        self.pat_term(&patterns[0]),
+        patterns[1..].iter().map(|q| self.pat_term(q)).collect::<Vec<_>>()
+      ]),
+    }
+  }
+
+  fn top_pat(&mut self, p: &pattern::MatchingPattern<()>) {
+    let t = self.pat_term(p);
+    self.pats.push(t);
+    self.pat(p, false, false, None);
+  }
+
   fn block(&mut self, b: &expr::Block<()>) {
     for s in &b.statements {
       match s {
         expr::Statement::Declaration(d) => {
           self.expr(&d.assigned_expression);
-          self.pat(&d.pattern, false, false, None);
+          self.top_pat(&d.pattern);
         }
         expr::Statement::Expression(e) => self.expr(e),
       }
@@ -153,7 +185,7 @@ impl<'a> Walk<'a> {
       expr::IfElseCondition::Expression(g) => self.expr(g),
       expr::IfElseCondition::Guard(p, g) => {
         self.expr(g);
-        self.pat(p, false, false, None);
+        self.top_pat(p);
       }
     }
     self.block(&e.e1);
@@ -192,7 +224,7 @@ impl<'a> Walk<'a> {
       expr::E::Match(x) => {
         self.expr(&x.matched);
         for c in &x.cases {
-          self.pat(&c.pattern, false, false, None);
+          self.top_pat(&c.pattern);
           self.expr(&c.body);
         }
       }
@@ -245,6 +277,7 @@ fn analyse(modname: &str, text: &str, width: usize) -> Analysis {
     invalid_defines: vec![],
     errors: vec![],
     occurrences: vec![],
+    patterns: vec![],
     panic: None,
   };
   let parsed = match catch_unwind(AssertUnwindSafe(|| {
@@ -267,9 +300,10 @@ fn analyse(modname: &str, text: &str, width: usize) -> Analysis {
       return a;
     }
   }
-  let mut w = Walk { heap: &heap, out: vec![] };
+  let mut w = Walk { heap: &heap, out: vec![], pats: vec![] };
   w.module(&parsed);
   a.occurrences = w.out;
+  a.patterns = w.pats;
   let _ = take_ssa_events();
   let mut es = ErrorSet::new();
   let res = catch_unwind(AssertUnwindSafe(|| {
@@ -340,6 +374,7 @@ fn analysis_json(a: &Analysis) -> Value {
     "unbound": a.unbound,
     "invalid_defines": a.invalid_defines,
     "errors": a.errors,
+    "patterns": a.patterns,
     "panic": a.panic,
   })
 }
